@@ -172,6 +172,12 @@ Proofs/Hist.vos Proofs/Hist.vok Proofs/Hist.required_vos: Proofs/Hist.v Model/Mo
 Proofs/PT03.vo Proofs/PT03.glob Proofs/PT03.v.beautified Proofs/PT03.required_vo: Proofs/PT03.v Model/Mon.vo Model/MonC03.vo Proofs/Framework.vo Proofs/StoreLocks.vo Proofs/StorePromises.vo Proofs/StoreCallbacks.vo Proofs/Discipline.vo Proofs/SysInv.vo Proofs/Eqb.vo Proofs/PC03.vo Proofs/Hist.vo
 Proofs/PT03.vio: Proofs/PT03.v Model/Mon.vio Model/MonC03.vio Proofs/Framework.vio Proofs/StoreLocks.vio Proofs/StorePromises.vio Proofs/StoreCallbacks.vio Proofs/Discipline.vio Proofs/SysInv.vio Proofs/Eqb.vio Proofs/PC03.vio Proofs/Hist.vio
 Proofs/PT03.vos Proofs/PT03.vok Proofs/PT03.required_vos: Proofs/PT03.v Model/Mon.vos Model/MonC03.vos Proofs/Framework.vos Proofs/StoreLocks.vos Proofs/StorePromises.vos Proofs/StoreCallbacks.vos Proofs/Discipline.vos Proofs/SysInv.vos Proofs/Eqb.vos Proofs/PC03.vos Proofs/Hist.vos
+Proofs/PC03once.vo Proofs/PC03once.glob Proofs/PC03once.v.beautified Proofs/PC03once.required_vo: Proofs/PC03once.v Model/Mon.vo Proofs/StorePromises.vo Model/MonC03.vo Proofs/PC03.vo
+Proofs/PC03once.vio: Proofs/PC03once.v Model/Mon.vio Proofs/StorePromises.vio Model/MonC03.vio Proofs/PC03.vio
+Proofs/PC03once.vos Proofs/PC03once.vok Proofs/PC03once.required_vos: Proofs/PC03once.v Model/Mon.vos Proofs/StorePromises.vos Model/MonC03.vos Proofs/PC03.vos
+Proofs/PT03b.vo Proofs/PT03b.glob Proofs/PT03b.v.beautified Proofs/PT03b.required_vo: Proofs/PT03b.v Model/Mon.vo Model/MonC03.vo Proofs/Framework.vo Proofs/StoreLocks.vo Proofs/StorePromises.vo Proofs/StoreCallbacks.vo Proofs/Discipline.vo Proofs/SysInv.vo Proofs/Eqb.vo Proofs/PC03.vo Proofs/Hist.vo Proofs/PT03.vo Proofs/PC03once.vo
+Proofs/PT03b.vio: Proofs/PT03b.v Model/Mon.vio Model/MonC03.vio Proofs/Framework.vio Proofs/StoreLocks.vio Proofs/StorePromises.vio Proofs/StoreCallbacks.vio Proofs/Discipline.vio Proofs/SysInv.vio Proofs/Eqb.vio Proofs/PC03.vio Proofs/Hist.vio Proofs/PT03.vio Proofs/PC03once.vio
+Proofs/PT03b.vos Proofs/PT03b.vok Proofs/PT03b.required_vos: Proofs/PT03b.v Model/Mon.vos Model/MonC03.vos Proofs/Framework.vos Proofs/StoreLocks.vos Proofs/StorePromises.vos Proofs/StoreCallbacks.vos Proofs/Discipline.vos Proofs/SysInv.vos Proofs/Eqb.vos Proofs/PC03.vos Proofs/Hist.vos Proofs/PT03.vos Proofs/PC03once.vos
 Proofs/Batch.vo Proofs/Batch.glob Proofs/Batch.v.beautified Proofs/Batch.required_vo: Proofs/Batch.v Model/Mon.vo Proofs/StoreLocks.vo Proofs/StorePromises.vo Proofs/StoreCallbacks.vo Proofs/Discipline.vo Proofs/SysInv.vo
 Proofs/Batch.vio: Proofs/Batch.v Model/Mon.vio Proofs/StoreLocks.vio Proofs/StorePromises.vio Proofs/StoreCallbacks.vio Proofs/Discipline.vio Proofs/SysInv.vio
 Proofs/Batch.vos Proofs/Batch.vok Proofs/Batch.required_vos: Proofs/Batch.v Model/Mon.vos Proofs/StoreLocks.vos Proofs/StorePromises.vos Proofs/StoreCallbacks.vos Proofs/Discipline.vos Proofs/SysInv.vos
@@ -232,9 +238,9 @@ Props/C07.vos Props/C07.vok Props/C07.required_vos: Props/C07.v Model/Mon.vos Mo
 Props/C08.vo Props/C08.glob Props/C08.v.beautified Props/C08.required_vo: Props/C08.v Model/Mon.vo Model/MonC07.vo Model/MonC08.vo Proofs/SysInv.vo Proofs/PC08.vo Proofs/PC08sel.vo
 Props/C08.vio: Props/C08.v Model/Mon.vio Model/MonC07.vio Model/MonC08.vio Proofs/SysInv.vio Proofs/PC08.vio Proofs/PC08sel.vio
 Props/C08.vos Props/C08.vok Props/C08.required_vos: Props/C08.v Model/Mon.vos Model/MonC07.vos Model/MonC08.vos Proofs/SysInv.vos Proofs/PC08.vos Proofs/PC08sel.vos
-Props/C03.vo Props/C03.glob Props/C03.v.beautified Props/C03.required_vo: Props/C03.v Model/Mon.vo Model/MonC01.vo Model/MonC04.vo Model/MonC03.vo Proofs/SysInv.vo Proofs/PC01.vo Proofs/PC04.vo Proofs/PC03.vo Proofs/PT03.vo
-Props/C03.vio: Props/C03.v Model/Mon.vio Model/MonC01.vio Model/MonC04.vio Model/MonC03.vio Proofs/SysInv.vio Proofs/PC01.vio Proofs/PC04.vio Proofs/PC03.vio Proofs/PT03.vio
-Props/C03.vos Props/C03.vok Props/C03.required_vos: Props/C03.v Model/Mon.vos Model/MonC01.vos Model/MonC04.vos Model/MonC03.vos Proofs/SysInv.vos Proofs/PC01.vos Proofs/PC04.vos Proofs/PC03.vos Proofs/PT03.vos
+Props/C03.vo Props/C03.glob Props/C03.v.beautified Props/C03.required_vo: Props/C03.v Model/Mon.vo Model/MonC01.vo Model/MonC04.vo Model/MonC03.vo Proofs/SysInv.vo Proofs/PC01.vo Proofs/PC04.vo Proofs/PC03.vo Proofs/PT03.vo Proofs/StorePromises.vo Proofs/PC03once.vo Proofs/PT03b.vo
+Props/C03.vio: Props/C03.v Model/Mon.vio Model/MonC01.vio Model/MonC04.vio Model/MonC03.vio Proofs/SysInv.vio Proofs/PC01.vio Proofs/PC04.vio Proofs/PC03.vio Proofs/PT03.vio Proofs/StorePromises.vio Proofs/PC03once.vio Proofs/PT03b.vio
+Props/C03.vos Props/C03.vok Props/C03.required_vos: Props/C03.v Model/Mon.vos Model/MonC01.vos Model/MonC04.vos Model/MonC03.vos Proofs/SysInv.vos Proofs/PC01.vos Proofs/PC04.vos Proofs/PC03.vos Proofs/PT03.vos Proofs/StorePromises.vos Proofs/PC03once.vos Proofs/PT03b.vos
 Props/C14.vo Props/C14.glob Props/C14.v.beautified Props/C14.required_vo: Props/C14.v Model/Mon.vo Model/MonC14.vo Proofs/StorePromises.vo Proofs/PC14.vo
 Props/C14.vio: Props/C14.v Model/Mon.vio Model/MonC14.vio Proofs/StorePromises.vio Proofs/PC14.vio
 Props/C14.vos Props/C14.vok Props/C14.required_vos: Props/C14.v Model/Mon.vos Model/MonC14.vos Proofs/StorePromises.vos Proofs/PC14.vos
